@@ -19,6 +19,7 @@ import Driver.OpGohcl
 import Driver.OpParseX
 import Driver.OpGenV
 import Driver.OpTmpl
+import Driver.OpTrav
 open HclModel
 
 structure St where
@@ -89,6 +90,7 @@ def handle (st : St) (line : String) : St × String :=
   else if line.startsWith "EXPAND " then (st, expandLine (line.drop 7).toString)
   else if line.startsWith "JBODY " then (st, jbodyLine (line.drop 6).toString)
   else if line.startsWith "GOHCL " then (st, gohclLine (line.drop 6).toString)
+  else if line.startsWith "TRAV " then (st, travLine (line.drop 5).toString)
   else if line.startsWith "TMPL " then (st, tmplLine (line.drop 5).toString)
   else if line.startsWith "GENV " then (st, genvLine (line.drop 5).toString)
   else if line.startsWith "PARSEG " then (st, parsegLine (line.drop 7).toString)
